@@ -31,7 +31,7 @@ def parseMEv (fs : FS) (t : String) : Option MEv :=
 def lcg (x : Nat) : Nat := (x * 1103515245 + 12345) % 2147483648
 
 /-- add allowed sticky flags to the events of one operation, noting what the stream has carried -/
-def stickAll (enabled : Bool) (seed : Nat) (seen : Seen) (evs : List MEv) : Nat × Seen × List MEv :=
+def stickSeeded (enabled : Bool) (seed : Nat) (seen : Seen) (evs : List MEv) : Nat × Seen × List MEv :=
   evs.foldl (fun (acc : Nat × Seen × List MEv) e =>
     let (x, h, out) := acc
     let x1 := lcg x
@@ -72,7 +72,7 @@ def macRunLine (ts : List String) : String :=
         let (op, cut) := oc
         if !Win.winValid fs op then (fs, st, x, seen, outs ++ ["skip"], allEvs, con) else
         let fs1 := fsAfter fs op
-        let (x1, seen1, native) := stickAll (seed != 0) x seen (macEvents fs op)
+        let (x1, seen1, native) := stickSeeded (seed != 0) x seen (macEvents fs op)
         if st.stopped then (fs1, st, x1, seen1, outs ++ ["N:|B:|E:"], allEvs, con) else
         let batches := cutAt cut native
         let (st1, evs) := batches.foldl (fun (a : MSt × List PEv) b =>
